@@ -403,6 +403,7 @@ func runAccept(c *xs.Ctx, r *xs.Result, cfi int, gv *genesisVariant, sit situati
 			r.Add("accept_field_values", m.String())
 		}
 		r.Count("accept_candidates", 1)
+		r.Sample(map[string]interface{}{"part": "accept", "genesis": gv.Name, "situation": sit.Name, "mutation": name, "sealing": fmt.Sprint(mode)})
 		// path A: Supervisor.ApplyMomentum
 		_, errA := fa.Sup.ApplyMomentum(vnode.CloneDetailed(d))
 		// path B: ChainBridge.InsertChain on a follower that holds the predecessor
